@@ -697,6 +697,12 @@ fn cases_for_instance(out: &mut Out, codec: Codec, prefix: &str, valid: bool, rn
     ] {
         probes.push(ProbeIn::Distinct { n1: n1.into(), n2: n2.into(), p2 });
     }
+    // nested prefixes with names that spell the difference (a memo keyed by prefix ++ name without a separator
+    // would make them collide): the second address must still be made under ITS prefix
+    if prefix.len() < 60 && prefix.bytes().all(|b| b.is_ascii_lowercase()) {
+        probes.push(ProbeIn::Distinct { n1: "valoperbob".into(), n2: "bob".into(), p2: format!("{}valoper", prefix) });
+        probes.push(ProbeIn::Distinct { n1: "b".into(), n2: "".into(), p2: format!("{}b", prefix) });
+    }
     // a name and the address made from it are different names: their addresses must differ
     for base in ["owner", "alice"] {
         if let R::Ok(a) = Inst::new(codec, prefix).make(base) {
